@@ -46,6 +46,8 @@ Observe(d, s, o) ==
               Cardinality({t \in 1..Len(s.t) : o.shuffled[t][b] = o.anomaly[a][b]})
               = Cardinality({t \in 1..Len(s.t) : o.anomaly[t][b] = o.anomaly[a][b]}))
        THEN <<"AnomalyDef", "shuffled_anomaly">>
+  ELSE IF o.anomaly_after # o.anomaly \/ o.phase_mean_after # o.phase_mean \/ o.observable_after # o.observable
+       THEN <<"Pure", "shuffled_anomaly">>
   ELSE <<"", "">>
 
 Rec == Trace[i]
